@@ -285,7 +285,9 @@ class NDArray:
     def _tolist(self):
         n = self.shape[0]
         if is_sym(n):
-            return self._rows()
+            rows = self._rows()
+            rows.tolist_of = self
+            return rows
         return [self._getitem(k) if self.ndim == 1 else self._getitem(k)._tolist() for k in range(n)]
 
     def tolist(self):
@@ -1463,8 +1465,31 @@ def flatnonzero(a):
     return r
 
 
+def _recognise_enumeration(ia):
+    """An array built as (index for index, item in enumerate(xs) if cond) carries the selection of the kept positions and its
+    k-th element *is* the k-th kept position: then it is an ascending enumeration without repeats.  Decided with a probe index
+    (only an unsat answer counts)."""
+    sel = getattr(ia, 'selection', None)
+    if sel is None or getattr(ia, 'sorted_unique', False) or getattr(ia, 'ndim', 0) != 1 or ia.dtype.kind not in 'iu':
+        return
+    c = core.ctx()
+    if not c.check_feasible:
+        return
+    p = mk_int(z3.Int(c._name('enum_probe')))
+    inr = z3.And(p.z >= 0, p.z < zint(sel.count))
+    try:
+        v = ia.fn((p,))
+        if not isinstance(v, (int, SInt)):
+            return
+        if not c.feasible(z3.And(inr, zint(v) != zint(sel.sel(p)))):
+            ia.sorted_unique = True
+    except Unsupported:
+        return
+
+
 def membership(ia: NDArray):
     """n -> (n occurs in the 1-D integer array ia)."""
+    _recognise_enumeration(ia)
     sel = getattr(ia, 'selection', None)
     if sel is not None and getattr(ia, 'sorted_unique', False):
         return lambda n: s_and(mk_bool(z3.And(zint(n) >= 0, zint(n) < zint(sel.total))), sel.keep(n))
@@ -1478,6 +1503,7 @@ def membership(ia: NDArray):
 
 
 def position_in(ia: NDArray):
+    _recognise_enumeration(ia)
     sel = getattr(ia, 'selection', None)
     if sel is not None and getattr(ia, 'sorted_unique', False):
         return lambda n: sel.rank(n)
@@ -2028,6 +2054,7 @@ class NumpyModule:
     equal = staticmethod(np_equal)
     asarray = staticmethod(np_array)
     stack = staticmethod(stack)
+    reshape = staticmethod(lambda a, shape, order='C': asarray(a).reshape(shape, order=order))
     dtype = staticmethod(np_dtype)
     repeat = staticmethod(repeat)
     concatenate = staticmethod(concatenate)
